@@ -27,9 +27,10 @@ type C14Case struct {
 	Doc     []byte       `json:"doc"`
 	DocText string       `json:"doc_text,omitempty"`
 	Path    []PathElem   `json:"path"`
-	Warm    [][]PathElem `json:"warm,omitempty"` // paths looked up earlier on the same root node
-	Opts    int          `json:"opts"`           // bit0 ValidateJSON, bit1 CopyReturn, bit2 ConcurrentRead
-	Entry   int          `json:"entry"`          // see c14EntryNames
+	Warm    [][]PathElem `json:"warm,omitempty"`  // paths looked up earlier on the same root node
+	Opts    int          `json:"opts"`            // bit0 ValidateJSON, bit1 CopyReturn, bit2 ConcurrentRead
+	Entry   int          `json:"entry"`           // see c14EntryNames
+	Views   int          `json:"views,omitempty"` // cross-kind accessors and secondary views: 0 none, 1 after the primary checks, 2 before them (node still lazy), 3 before them and reading copies of the children first
 
 	warmDiff string
 	locErr   string // error text of the entry point, if it returned one
@@ -44,12 +45,13 @@ func drawC14(t *rapid.T) Case {
 	// Lone surrogate escapes may occur in values and keys (encoding/json reads them as U+FFFD); a key spelled
 	// with one is not addressable by a Go string path, so paths never step through such a key (see drawC14Path),
 	// but they do address its neighbours.
-	c.Doc = gen.ValidDoc(t, gen.DocOpt{Str: gen.StrOpt{LoneSurr: rapid.IntRange(0, 3).Draw(t, "lonesurr") == 0}, Wide: true, MaxDepth: 4, Nested: true})
+	c.Doc = gen.ValidDoc(t, gen.DocOpt{Str: gen.StrOpt{LoneSurr: rapid.IntRange(0, 3).Draw(t, "lonesurr") == 0}, Wide: true, MaxDepth: 4, Nested: true, CastStr: true})
 	if !json.Valid(c.Doc) {
 		c.Doc = []byte(`{"a":[1,{"b":null}]}`)
 	}
 	c.Opts = rapid.IntRange(0, 7).Draw(t, "opts")
 	c.Entry = rapid.IntRange(0, len(c14EntryNames)-1).Draw(t, "entry")
+	c.Views = rapid.IntRange(0, 3).Draw(t, "views")
 	root := ref.Parse(c.Doc)
 	c.Path = drawC14Path(t, root)
 	// earlier lookups on the same root node (entry points that keep one): they leave it partially loaded
@@ -349,6 +351,14 @@ func refEvents(doc []byte, n *ref.Node, out *[]c14Event) bool {
 	return true
 }
 
+// passesWithViews re-runs the case with another order of the secondary views.
+func (c *C14Case) passesWithViews(v int) bool {
+	d := *c
+	d.Views = v
+	r := d.Run()
+	return r.Err == nil && len(r.Known) == 0
+}
+
 func (c *C14Case) Run() (res stat.Result) {
 	root := ref.Parse(c.Doc)
 	if root == nil {
@@ -388,6 +398,26 @@ func (c *C14Case) Run() (res stat.Result) {
 	}
 	span := c.Doc[want.Beg:want.End]
 	n := &got
+	if c.Views != 0 {
+		res.Classes = append(res.Classes, fmt.Sprintf("views:%d:kind%d", c.Views, want.Kind))
+		if want.Kind == ref.TString {
+			if s, _ := ref.Unquote(span[1 : len(span)-1]); castOfText(string(s), true).numOK || castOfText(string(s), true).bOK {
+				res.Classes = append(res.Classes, "views:string-that-casts")
+			}
+		}
+	}
+	if c.Views >= 2 {
+		res.Sub++
+		if d := c14CrossViews(c.Doc, n, want, c.Views == 3); d != "" {
+			if c.Views == 3 && c.passesWithViews(2) {
+				// the same case read in the other order holds: by-value copies of a partially parsed child were
+				// read before the original was loaded (listed finding)
+				res.Known = append(res.Known, "C15-lazy-node-copy-shares-parser")
+				return res
+			}
+			return fail("%s", d)
+		}
+	}
 
 	// Raw describes the span
 	res.Sub++
@@ -555,6 +585,13 @@ func (c *C14Case) Run() (res stat.Result) {
 			if err != nil || ref.TokensEqual(c.Doc[want.Elems[fi].Beg:want.Elems[fi].End], []byte(r), false) != "" {
 				return fail("Get(%q) on the located object = %s, %v; want first occurrence %s", k.Str, clipS(r), err, clipB(c.Doc[want.Elems[fi].Beg:want.Elems[fi].End]))
 			}
+		}
+	}
+
+	if c.Views == 1 {
+		res.Sub++
+		if d := c14CrossViews(c.Doc, n, want, false); d != "" {
+			return fail("%s", d)
 		}
 	}
 
